@@ -545,6 +545,8 @@ impl Vm {
                 let offset = self.active_chunk.code_offset(self.ip);
                 debug::disassemble_instruction(&self.active_chunk, offset);
             }
+            #[cfg(feature = "verif_hooks")]
+            verif_trace::step(self);
             let byte = self.read_byte();
 
             match byte {
@@ -2111,5 +2113,164 @@ pub mod verif_intern {
     pub fn vm_intern(vm: &mut Vm, text: &str) -> (u64, usize) {
         let s = vm.new_gc_obj_string(text);
         (s.hash, &*s as *const ObjString as usize)
+    }
+}
+
+#[cfg(feature = "verif_hooks")]
+pub mod verif_trace {
+    //! Verification hooks H4/H5 (feature `verif_hooks`): read-only views of interpreter state.
+    //! H4: one record per dispatched instruction while tracing is on. H5: what outlives a run.
+    use std::cell::{Cell, RefCell};
+
+    use super::Vm;
+
+    #[derive(Clone, Debug)]
+    pub struct Step {
+        /// address of the running fiber object
+        pub fiber: usize,
+        /// address of the running function object
+        pub function: usize,
+        /// offset of the instruction about to be dispatched, and its opcode byte
+        pub pc: usize,
+        pub opcode: u8,
+        pub stack_len: usize,
+        pub slot_base: usize,
+        pub frames: usize,
+        /// (catch offset, finally offset, init_stack_size, frame_count) innermost last
+        pub handlers: Vec<(isize, isize, usize, usize)>,
+        /// stack slots of the open upvalue list, in list order
+        pub open_upvalues: Vec<isize>,
+        pub handling_exception: bool,
+        pub return_pending: bool,
+        /// raw active-fiber pointer equals the rooted fiber
+        pub fiber_ptr_ok: bool,
+        /// has the running fiber a caller
+        pub has_caller: bool,
+    }
+
+    #[derive(Clone, Debug, PartialEq)]
+    pub struct Carried {
+        pub handling_exception: bool,
+        pub fiber_present: bool,
+        pub fiber_frames: usize,
+        pub fiber_stack: usize,
+        pub fiber_handlers: usize,
+        pub fiber_return_pending: bool,
+        pub fiber_error_ip: bool,
+        pub working_class_def: bool,
+        pub modules: usize,
+        pub chunks: usize,
+        pub core_chunks: usize,
+        pub range_cache: usize,
+    }
+
+    thread_local! {
+        static TRACING: Cell<bool> = Cell::new(false);
+        static LIMIT: Cell<usize> = Cell::new(1_000_000);
+        static TRACE: RefCell<Vec<Step>> = RefCell::new(Vec::new());
+    }
+
+    pub fn set_tracing(on: bool, limit: usize) {
+        TRACING.with(|t| t.set(on));
+        LIMIT.with(|l| l.set(limit));
+    }
+
+    pub fn take_trace() -> Vec<Step> {
+        TRACE.with(|t| std::mem::take(&mut *t.borrow_mut()))
+    }
+
+    pub(super) fn step(vm: &Vm) {
+        if !TRACING.with(|t| t.get()) {
+            return;
+        }
+        if TRACE.with(|t| t.borrow().len()) >= LIMIT.with(|l| l.get()) {
+            return;
+        }
+        let root = match vm.fiber.as_ref() {
+            Some(r) => r,
+            None => return,
+        };
+        let fiber = root.borrow();
+        let frame = match fiber.frames.last() {
+            Some(f) => f,
+            None => return,
+        };
+        let code = frame.closure.function.chunk.code.as_ptr() as isize;
+        let stack_base = fiber.stack.as_ptr() as isize;
+        let value_size = std::mem::size_of::<crate::value::Value>() as isize;
+        let mut open_upvalues = Vec::new();
+        let mut cursor = fiber.open_upvalues;
+        while let Some(u) = cursor {
+            let b = u.borrow();
+            let slot = Cell::new(-1);
+            b.is_open_with_pred(|a| {
+                slot.set((a as isize - stack_base) / value_size);
+                true
+            });
+            open_upvalues.push(slot.get());
+            cursor = b.next;
+            if open_upvalues.len() > 100_000 {
+                break;
+            }
+        }
+        let rec = Step {
+            fiber: root.as_gc().as_ptr() as usize,
+            function: frame.closure.function.as_ptr() as usize,
+            pc: (vm.ip as isize - code) as usize,
+            opcode: unsafe { *vm.ip },
+            stack_len: fiber.stack.len(),
+            slot_base: frame.slot_base,
+            frames: fiber.frames.len(),
+            handlers: fiber
+                .exc_handlers
+                .iter()
+                .map(|h| {
+                    (
+                        h.catch_ip as isize,
+                        h.finally_ip as isize,
+                        h.init_stack_size,
+                        h.frame_count,
+                    )
+                })
+                .collect(),
+            open_upvalues,
+            handling_exception: vm.handling_exception,
+            return_pending: fiber.return_ip.is_some(),
+            fiber_ptr_ok: vm.unsafe_fiber as usize == root.as_gc().as_ptr() as usize,
+            has_caller: fiber.caller.is_some(),
+        };
+        TRACE.with(|t| t.borrow_mut().push(rec));
+    }
+
+    /// H5: the state that outlives `interpret`/`execute`.
+    pub fn carried(vm: &Vm) -> Carried {
+        let (present, frames, stack, handlers, ret, err) = match vm.fiber.as_ref() {
+            Some(r) => {
+                let f = r.borrow();
+                (
+                    true,
+                    f.frames.len(),
+                    f.stack.len(),
+                    f.exc_handlers.len(),
+                    f.return_ip.is_some(),
+                    f.error_ip.is_some(),
+                )
+            }
+            None => (false, 0, 0, 0, false, false),
+        };
+        Carried {
+            handling_exception: vm.handling_exception,
+            fiber_present: present,
+            fiber_frames: frames,
+            fiber_stack: stack,
+            fiber_handlers: handlers,
+            fiber_return_pending: ret,
+            fiber_error_ip: err,
+            working_class_def: vm.working_class_def.is_some(),
+            modules: vm.modules.len(),
+            chunks: vm.chunks.len(),
+            core_chunks: vm.core_chunks.len(),
+            range_cache: vm.range_cache.len(),
+        }
     }
 }
